@@ -23,3 +23,5 @@ HOOK_COMMITS = []
 NOT_APPLICABLE = {}
 PROPS["C17"] = {"contracts": ["c17_min_iri"], "level": "other", "explanation": "wip"}
 PROPS["C11"] = {"contracts": ["c11_shacl"], "level": "other", "explanation": "wip"}
+PROPS["C10"] = {"contracts": ["instances"], "level": "other", "explanation": "wip"}
+PROPS["C16"] = {"contracts": ["instances"], "level": "other", "explanation": "wip"}
